@@ -80,3 +80,24 @@ func TestExplain(t *testing.T) {
 		fmt.Println("no failure")
 	}
 }
+
+// TestExplainC12 prints the log of every step of a saved C12 case (VERIF_REPLAY=<file>).
+func TestExplainC12(t *testing.T) {
+	path := os.Getenv("VERIF_REPLAY")
+	if path == "" {
+		t.Skip()
+	}
+	data, _ := os.ReadFile(path)
+	var rf ReplayFile
+	_ = json.Unmarshal(data, &rf)
+	var c C12Case
+	_ = json.Unmarshal(rf.Case, &c)
+	explainSteps = true
+	defer func() { explainSteps = false }()
+	f := execC12(c)
+	if f != nil {
+		fmt.Println("FAILURE", f.Signature, f.Msg)
+	}
+}
+
+var explainSteps bool
